@@ -26,6 +26,11 @@ class TranslateError(Exception):
     pass
 
 
+# regex fragments used by the anchors (all matched against the CANONICAL text, see `canonical`)
+TY = r"(?:const )?(?:typename )?[\w:]+(?:<[^<>;()]*>)?(?:::\w+)?&?"      # a declared type
+KC = r"(?:static_cast<\w+>\(k\)|k)"                                       # k, with or without a cast
+
+
 # ----------------------------------------------------------------------------- source access
 def strip_comments(src):
     def repl(m):
@@ -596,7 +601,7 @@ def validate_statements(body, what):
         m = CHECK.match(rest)
         guard = None
         if not m:
-            g = re.match(r"(if \([^{};]*?\))\s*(?=parameters\[)", rest)
+            g = re.match(r"(if \([^{};]*?\))\s*\{\s*(?=parameters\[)", rest)
             if g:
                 gm = COND.match(g.group(1).strip())
                 if not gm:
@@ -616,6 +621,10 @@ def validate_statements(body, what):
         if not rest.startswith(";"):
             raise TranslateError("%s: missing ; after check: %r" % (what, rest[:60]))
         rest = rest[1:].lstrip()
+        if guard is not None:
+            if not rest.startswith("}"):
+                raise TranslateError("%s: a guarded check must be the only statement of its block: %r" % (what, rest[:60]))
+            rest = rest[1:].lstrip()
     return terms
 
 
@@ -623,15 +632,15 @@ def gen_validation(src, out):
     out.comment("§1 validation bounds — `parameters[kw].checked().satisfies(Pred<T>(args)).orThrow()`\n"
                 "InRange = [lo, hi), InClosedRange = [lo, hi], Positivity = (0, ∞), NonNegativity = [0, ∞)  (predicates.hpp)")
     # predicate semantics are themselves read from predicates.hpp
-    sem = {"InRange": r"struct InRange .*?return \(v >= lower\) && \(v < upper\);",
-           "InClosedRange": r"struct InClosedRange .*?return \(v >= lower\) && \(v <= upper\);",
+    sem = {"InRange": r"struct InRange .*?return \(?v >= lower\)? && \(?v < upper\)?;",
+           "InClosedRange": r"struct InClosedRange .*?return \(?v >= lower\)? && \(?v <= upper\)?;",
            "Positivity": r"struct Positivity .*?return v > 0;",
            "NonNegativity": r"struct NonNegativity .*?return v >= 0;"}
     for name, pat in sem.items():
         src.find("tapkee/predicates.hpp", pat, "semantics of predicate " + name)
     # base constructor
     ctor = src.function_body("tapkee/methods/base.hpp", r"ImplementationBase\(RandomAccessIterator b, RandomAccessIterator e,[^{;]*?\)\s*:[^{;]*?(?=\{)", "ImplementationBase constructor")
-    m0 = re.search(r"if \(n_vectors == 0\) throw (\w+)\(\);", ctor)
+    m0 = re.search(r"if \(n_vectors == 0\) \{ throw (\w+)\(\); \}", ctor)
     if not m0:
         raise TranslateError("base.hpp: empty-input check `if (n_vectors == 0) throw ...` not found")
     out.raw("/-- base.hpp constructor: `if (n_vectors == 0) throw %s();` -/" % m0.group(1))
@@ -700,7 +709,7 @@ def gen_validation(src, out):
         out.raw("  | .%s => true" % n)
     out.raw("  | _ => false")
     s = src.norm("tapkee/routines/generalized_eigendecomposition.hpp")
-    if not re.search(r"if \(method\.is\(Randomized\)\) throw unsupported_method_error\(", s):
+    if not re.search(r"if \(method\.is\(Randomized\)\) \{ throw unsupported_method_error\(", s):
         raise TranslateError("generalized_eigendecomposition: `if (method.is(Randomized)) throw unsupported_method_error` not found")
     # documented defaults (defines/keywords.hpp)
     kws = re.sub(r"\s+", " ", src.raw("tapkee/defines/keywords.hpp"))
@@ -730,7 +739,7 @@ def gen_sites(src, out):
     f = "tapkee/neighbors/neighbors.hpp"
     out.comment("§2.1 neighbors.hpp — brute force: nth_element position, the copy loop, clamp and doubling of k")
     body = src.function_body(f, r"Neighbors find_neighbors_bruteforce_impl\(", "find_neighbors_bruteforce_impl")
-    m = re.search(r"for \(RandomAccessIterator (\w+) = begin; \1 != end; \+\+\1\) (\w+)\.push_back\(", body)
+    m = re.search(r"for \(" + TY + r" (\w+) = begin; \1 != end; \+\+\1\) \{ (\w+)\.push_back\(", body)
     if not m:
         raise TranslateError("neighbors.hpp: loop filling the distance records (one per sample) not found")
     dist = m.group(2)
@@ -745,7 +754,7 @@ def gen_sites(src, out):
         raise TranslateError("neighbors.hpp: copy loop `it != distances.begin() + ...` not found")
     out.defn("brute_take_end", ["k"], E(m.group(2), {"k": "k"}, what="copy loop end"),
              "copy loop reads records [0, %s), skipping the query if it is among them" % m.group(2))
-    m = re.search(r"if \((\w+)\.size\(\) > static_cast<size_t>\(k\)\) \1\.pop_back\(\); neighbors\.push_back\(\1\);", body)
+    m = re.search(r"if \((\w+)\.size\(\) > " + KC + r"\) \{ \1\.pop_back\(\); \} neighbors\.push_back\(\1\);", body)
     out.raw("/-- brute force: is a list longer than k trimmed (`if (local_neighbors.size() > k) local_neighbors.pop_back()`)? -/")
     out.raw("def brute_trims_to_k : Bool := %s" % ("true" if m else "false"))
     vb = src.function_body(f, r"Neighbors find_neighbors_vptree_impl\(", "find_neighbors_vptree_impl")
@@ -753,7 +762,7 @@ def gen_sites(src, out):
     if not m:
         raise TranslateError("neighbors.hpp: tree.search(i, k + 1) not found")
     out.defn("vptree_requested", ["k"], E(m.group(1), {"k": "k"}, what="vptree request"), "`tree.search(i, %s)`, the query removed afterwards" % m.group(1))
-    m = re.search(r"if \((\w+)\.size\(\) > static_cast<size_t>\(k\)\) \1\.erase\(\1\.begin\(\)\); neighbors\.push_back\(\1\);", vb)
+    m = re.search(r"if \((\w+)\.size\(\) > " + KC + r"\) \{ \1\.erase\(\1\.begin\(\)\); \} neighbors\.push_back\(\1\);", vb)
     out.raw("def vptree_trims_to_k : Bool := %s" % ("true" if m else "false"))
     body = src.function_body(f, r"Neighbors find_neighbors\(NeighborsMethod method,", "find_neighbors")
     m = re.search(r"if \(k > ([^{]+?)\) \{.*?k = ([^;]+);", body)
@@ -771,8 +780,8 @@ def gen_sites(src, out):
     # consumers index each list with the length of list 0
     fc = "tapkee/neighbors/connected.hpp"
     body = src.function_body(fc, r"bool is_connected\(", "is_connected")
-    m = re.search(r"IndexType (\w+) = neighbors\[0\]\.size\(\);", body)
-    m2 = m and re.search(r"for \(IndexType (\w+) = 0; \1 (<=|<) ([^;]+); \+\+\1\) \{ int \w+ = ([\w\[\]]+)\[\1\];", body)
+    m = re.search(TY + r" (\w+) = neighbors\[0\]\.size\(\);", body)
+    m2 = m and re.search(r"for \(" + TY + r" (\w+) = 0; \1 (<=|<) ([^;]+); \+\+\1\) \{ " + TY + r" \w+ = ([\w\[\]]+)\[\1\];", body)
     if not m2:
         raise TranslateError("connected.hpp: `k = neighbors[0].size()` / `current_neighbors[j], j < k` not found")
     bound = E(m2.group(3), {m.group(1): "len0"}, what="consumer loop bound")
@@ -797,16 +806,16 @@ def gen_sites(src, out):
         raise TranslateError("hessian_weight_matrix: allocation of Yi(k, width) not found")
     yi = m.group(1)
     out.defn("hlle_yi_cols", ["d", "dp"], E(m.group(2), env, what="Yi width"), "`DenseMatrix %s(k, %s)`" % (yi, m.group(2)))
-    m = re.search(r"%s\.block\(0, ([^,]+), k, ([^)]+)\)\.noalias\(\) = (\w+)\.eigenvectors\(\)\.rightCols\(([^)]+)\)" % yi, body)
+    m = re.search(r"%s\.block\(0, ([^,]+), k, ([^)]+)\) = (\w+)\.eigenvectors\(\)\.rightCols\(([^)]+)\)" % yi, body)
     if not m:
         raise TranslateError("hessian_weight_matrix: Yi.block(0, 1, k, d) = eigenvectors().rightCols(d) not found")
     out.defn("hlle_block_start", ["d"], E(m.group(1), env, what="Yi.block start"), "`%s.block(0, %s, k, %s)`" % (yi, m.group(1), m.group(2)))
     out.defn("hlle_block_cols", ["d"], E(m.group(2), env, what="Yi.block cols"))
     out.defn("hlle_eigvec_rightCols", ["d"], E(m.group(4), env, what="local eigenvectors rightCols"),
              "`%s.eigenvectors().rightCols(%s)` of the k x k local Gram matrix" % (m.group(3), m.group(4)))
-    m = re.search(r"IndexType (?P<ct>\w+) = (?P<init>[^;]+); for \(IndexType (?P<j>\w+) = 0; (?P=j) < (?P<jhi>[^;]+); \+\+(?P=j)\) \{ "
-                  r"for \(IndexType (?P<p>\w+) = 0; (?P=p) < (?P<phi>[^;]+); \+\+(?P=p)\) \{ "
-                  r"%s\.col\((?P<idx>[^)]+)\)\.noalias\(\) = %s\.col\((?P<a>[^)]+)\)\.cwiseProduct\(%s\.col\((?P<b>[^)]+)\)\); \} "
+    m = re.search(TY + r" (?P<ct>\w+) = (?P<init>[^;]+); for \(" + TY + r" (?P<j>\w+) = 0; (?P=j) < (?P<jhi>[^;]+); \+\+(?P=j)\) \{ "
+                  r"for \(" + TY + r" (?P<p>\w+) = 0; (?P=p) < (?P<phi>[^;]+); \+\+(?P=p)\) \{ "
+                  r"%s\.col\((?P<idx>[^)]+)\) = %s\.col\((?P<a>[^)]+)\)\.cwiseProduct\(%s\.col\((?P<b>[^)]+)\)\); \} "
                   r"(?P=ct) (?P<op>\+=|=) (?P<step>[^;]+); \}" % (yi, yi, yi), body)
     if not m:
         raise TranslateError("hessian_weight_matrix: the `ct` double loop writing Yi.col(ct + p + 1 + d) not found")
@@ -822,7 +831,7 @@ def gen_sites(src, out):
     if m.group("op") == "+=":
         step = "(ct + %s)" % step
     out.defn("hlle_ct_step", ["ct", "d", "j"], step, "`%s %s %s` at the end of outer iteration j" % (m.group("ct"), m.group("op"), m.group("step")))
-    m = re.search(r"for \(IndexType (\w+) = 0; \1 < ([^;]+); \1\+\+\) \{ ScalarType \w+ = %s\.col\(([^)]+)\)\.sum\(\);" % yi, body)
+    m = re.search(r"for \(" + TY + r" (\w+) = 0; \1 < ([^;]+); \+\+\1\) \{ " + TY + r" \w+ = %s\.col\(([^)]+)\)\.sum\(\);" % yi, body)
     if not m:
         raise TranslateError("hessian_weight_matrix: normalisation loop over Yi.col(1 + d + i) not found")
     env3 = dict(env)
@@ -837,7 +846,7 @@ def gen_sites(src, out):
     # ---- LTSA -------------------------------------------------------------------------------------------------
     out.comment("§2.3 locally_linear.hpp — tangent_weight_matrix")
     body = src.function_body(f, r"SparseWeightMatrix tangent_weight_matrix\(", "tangent_weight_matrix")
-    m = re.search(r"(\w+)\.rightCols\(([^)]+)\)\.noalias\(\) = (\w+)\.eigenvectors\(\)\.rightCols\(([^)]+)\);", body)
+    m = re.search(r"(\w+)\.rightCols\(([^)]+)\) = (\w+)\.eigenvectors\(\)\.rightCols\(([^)]+)\);", body)
     if not m:
         raise TranslateError("tangent_weight_matrix: G.rightCols(d) = eigenvectors().rightCols(d) not found")
     g = m.group(1)
@@ -923,12 +932,12 @@ def gen_sites(src, out):
             raise TranslateError("methods.hpp: EigendecompositionStrategy %s not found" % nm)
         out.defn("skip_" + nm, [], "(%s : Int)" % skips[nm], "defines/methods.hpp: `%s(…, %s)`" % (nm, skips[nm]))
     s = src.norm("tapkee/routines/generalized_eigendecomposition.hpp")
-    m = re.search(r"struct generalized_eigendecomposition_impl<DenseMatrix, DenseMatrix> \{.*?generalized_eigendecomposition_impl_dense<DenseMatrix, DenseMatrix, DenseInverseMatrixOperation>\( lhs, rhs, target_dimension, (.+?)\); unsupported", s)
+    m = re.search(r"struct generalized_eigendecomposition_impl<DenseMatrix, DenseMatrix> \{.*?generalized_eigendecomposition_impl_dense<DenseMatrix, DenseMatrix, DenseInverseMatrixOperation>\( ?lhs, rhs, target_dimension, (.+?)\); \} unsupported", s)
     if not m:
         raise TranslateError("generalized: skip argument of the <DenseMatrix, DenseMatrix> dense path not found")
     out.defn("gen_dense_dense_skip", [], E(m.group(1), {"eigen_strategy.skip()": "skip_SmallestEigenvalues"}, what="gen skip"),
              "<DenseMatrix, DenseMatrix> dense path passes skip = `%s`" % m.group(1))
-    m = re.search(r"struct generalized_eigendecomposition_impl<SparseWeightMatrix, DenseDiagonalMatrix> \{.*?EigendecompositionResult dense\(.*?SparseInverseMatrixOperation>\( lhs, rhs, target_dimension, (.+?)\); unsupported", s)
+    m = re.search(r"struct generalized_eigendecomposition_impl<SparseWeightMatrix, DenseDiagonalMatrix> \{.*?EigendecompositionResult dense\(.*?SparseInverseMatrixOperation>\( ?lhs, rhs, target_dimension, (.+?)\); \} unsupported", s)
     if not m:
         raise TranslateError("generalized: skip argument of the <Sparse, Diagonal> dense path not found")
     out.defn("gen_sparse_diag_skip", [], E(m.group(1), {"eigen_strategy.skip()": "skip_SmallestEigenvalues"}, what="gen skip"),
@@ -948,7 +957,7 @@ def gen_sites(src, out):
     out.defn("dm_requested", ["d"], E(m.group(2), env, what="dm request"), "eigenvectors requested: `%s`" % m.group(2))
     m = re.search(r"\(decomposition_result\.first\)\.leftCols\(([^)]+)\);", body)
     m2 = re.search(r"/= decomposition_result\.first\.col\(([^)]+)\)\.array\(\);", body)
-    m3 = re.search(r"for \(IndexType (\w+) = 0; \1 < ([^;]+); \1\+\+\) embedding\.col\(\1\)\.array\(\) \*= pow\(decomposition_result\.second\(\1\),", body)
+    m3 = re.search(r"for \(" + TY + r" (\w+) = 0; \1 < ([^;]+); \+\+\1\) \{ embedding\.col\(\1\)\.array\(\) \*= pow\(decomposition_result\.second\(\1\),", body)
     if not (m and m2 and m3):
         raise TranslateError("diffusion_map: leftCols(d) / col(d) / second(i) sites not found")
     out.defn("dm_leftCols", ["d"], E(m.group(1), env, what="dm leftCols"), "`decomposition_result.first.leftCols(%s)`" % m.group(1))
@@ -959,7 +968,7 @@ def gen_sites(src, out):
     out.comment("§2.8 routines/spe.hpp")
     body = src.function_body("tapkee/routines/spe.hpp", r"DenseMatrix spe_embedding\(", "spe_embedding")
     env = {"k": "k", "nupdates": "nu", "N": "N", "j": "j", "kk": "kk"}
-    m = re.search(r"while \(nupdates > ([^)]+)\) nupdates = ([^;]+);", body)
+    m = re.search(r"while \(nupdates > ([^)]+)\) \{ nupdates = ([^;]+); \}", body)
     if not m or m.group(1).strip() != m.group(2).strip():
         raise TranslateError("spe: clamp `while (nupdates > N / 2) nupdates = N / 2` not found")
     out.defn("spe_nupdates_max", ["N"], E(m.group(1), env, what="spe clamp"), "`while (nupdates > %s) nupdates = %s`" % (m.group(1), m.group(2)))
@@ -968,20 +977,39 @@ def gen_sites(src, out):
         raise TranslateError("spe: `Indices indices(N)` not found")
     idxv = m.group(1)
     out.defn("spe_indices_size", ["N"], "N", "`Indices %s(N)`" % idxv)
-    m = re.search(r"(\w+)\.resize\(static_cast<size_t>\(k\) \* nupdates\);", body)
+    m = re.search(r"(\w+)\.resize\(" + KC + r" \* nupdates\);", body)
     if not m:
         raise TranslateError("spe: ind1Neighbors.resize(k * nupdates) not found")
     inn = m.group(1)
     out.defn("spe_ind1_size", ["k", "nu"], "(k * nu)", "`%s.resize(static_cast<size_t>(k) * nupdates)`" % inn)
-    m = re.search(r"for \(IndexType (\w+) = 0; \1 < k; \+\+\1\) %s\[([^\]]+)\] = current_neighbors\[\1\];" % inn, body)
+    m = re.search(r"for \(" + TY + r" (\w+) = 0; \1 < k; \+\+\1\) \{ %s\[([^\]]+)\] = current_neighbors\[\1\];" % inn, body)
     if not m:
         raise TranslateError("spe: ind1Neighbors[kk + j * k] = current_neighbors[kk] not found")
     e2 = dict(env)
     e2[m.group(1)] = "kk"
     out.defn("spe_ind1_write", ["kk", "j", "k"], E(m.group(2), e2, what="spe ind1 write"), "`%s[%s]`, kk < k, j < nupdates" % (inn, m.group(2)))
-    m = re.search(r"IndexType (\w+) = static_cast<IndexType>\(floor\(tapkee::uniform_random\(\) \* \(([^)]+)\)\) \+ ([^)]+)\); (\w+)\[([^\]]+)\] = %s\[\1\];" % inn, body)
-    if not m:
-        raise TranslateError("spe: r = floor(uniform_random() * (k - 1)) + k * j ; <partners>[…] = ind1Neighbors[r] not found")
+    PICK = r"(?:static_cast<IndexType>\()?floor\(tapkee::uniform_random\(\) \* \(([^)]+)\)\) \+ ([^)\];]+)\)?"
+    m = re.search(TY + r" (\w+) = " + PICK + r"; (\w+)\[([^\]]+)\] = %s\[\1\];" % inn, body)
+    if m:
+        class _G:
+            def __init__(self, g):
+                self.g = g
+
+            def group(self, i):
+                return self.g[i]
+        m = _G({2: m.group(2), 3: m.group(3), 4: m.group(4), 5: m.group(5)})
+    else:
+        mi = re.search(r"(\w+)\[([^\]]+)\] = %s\[" % inn + PICK + r"\];", body)
+        if not mi:
+            raise TranslateError("spe: <partners>[…] = ind1Neighbors[floor(uniform_random() * (k - 1)) + k * j] (directly or through a local) not found")
+
+        class _G2:
+            def __init__(self, g):
+                self.g = g
+
+            def group(self, i):
+                return self.g[i]
+        m = _G2({2: mi.group(3), 3: mi.group(4), 4: mi.group(1), 5: mi.group(2)})
     out.defn("spe_rand_span", ["k"], E(m.group(2), env, what="spe span"), "`floor(uniform_random() * (%s))` ranges over [0, max(span,1)) for uniform_random() in [0,1)" % m.group(2))
     out.defn("spe_r", ["f", "k", "j"], "(f + %s)" % E(m.group(3), env, what="spe r"), "`r = f + %s`, f the floor term" % m.group(3))
     target = m.group(4)
@@ -997,7 +1025,7 @@ def gen_sites(src, out):
     if not m:
         raise TranslateError("spe: second half `indices.begin() + nupdates` not found")
     out.defn("spe_ind2_start", ["nu"], E(m.group(1), env, what="spe ind2"), "global strategy: partners are `%s.begin() + %s`, advanced nupdates times" % (idxv, m.group(1)))
-    m = re.search(r"if \(max_iter == 0\) \{ max_iter = (\d+) \+ static_cast<IndexType>\(floor\(([\d.]+) \* N \* N\)\); if \(!global_strategy\) max_iter \*= (\d+); \}", body)
+    m = re.search(r"if \(max_iter == 0\) \{ max_iter = (\d+) \+ (?:static_cast<IndexType>\()?floor\(([\d.]+) \* N \* N\)\)?; if \(!global_strategy\) \{ max_iter \*= (\d+); \} \}", body)
     if not m:
         raise TranslateError("spe: default max_iter not found")
     from fractions import Fraction
@@ -1005,23 +1033,25 @@ def gen_sites(src, out):
     out.defn("spe_default_iters", ["N", "globalStrategy : Bool"],
              "((%s + (%d * N * N) / %d) * (if globalStrategy then 1 else %s))" % (m.group(1), fr.numerator, fr.denominator, m.group(3)),
              "`max_iter = %s + floor(%s * N * N)`, `*= %s` for the local strategy" % (m.group(1), m.group(2), m.group(3)))
-    if not re.search(r"for \(IndexType (\w+) = 0; \1 < max_iter; \+\+\1\)", body):
+    if not re.search(r"for \(" + TY + r" (\w+) = 0; \1 < max_iter; \+\+\1\)", body):
         raise TranslateError("spe: main loop `i < max_iter` not found")
 
     # ---- landmarks -----------------------------------------------------------------------------------------------
     out.comment("§2.9 routines/landmarks.hpp")
     body = src.function_body("tapkee/routines/landmarks.hpp", r"Landmarks select_landmarks_random\(", "select_landmarks_random")
     m = re.search(r"(\w+)\.erase\(\1\.begin\(\) \+ static_cast<IndexType>\(\1\.size\(\) \* ratio\), \1\.end\(\)\);", body)
-    if not m or not re.search(r"for \(RandomAccessIterator (\w+) = begin; \1 != end; \+\+\1\) %s\.push_back\(" % m.group(1), body):
-        raise TranslateError("landmarks: erase(begin + size * ratio, end) not found")
+    sized = m and (re.search(r"for \(" + TY + r" (\w+) = begin; \1 != end; \+\+\1\) \{ %s\.push_back\(" % m.group(1), body)
+                   or re.search(r"Landmarks %s\(end - begin\);" % m.group(1), body))
+    if not m or not sized:
+        raise TranslateError("landmarks: erase(begin + size * ratio, end) of a vector with one entry per sample not found")
     out.raw("/-- `landmarks.erase(landmarks.begin() + static_cast<IndexType>(landmarks.size() * ratio), landmarks.end())`;")
     out.raw("    the product is a `double` in the code, an exact rational here (size = N: one entry per sample) -/")
     out.raw("def landmark_count (N : Int) (ratio : Rat) : Int := (((N : Int) : Rat) * ratio).floor")
     out.defn("landmark_vector_size", ["N"], "N")
     body = src.function_body("tapkee/routines/landmarks.hpp", r"DenseMatrix triangulate\(", "triangulate")
     m = re.search(r"DenseMatrix embedding\(n_vectors, target_dimension\);", body)
-    m2 = re.search(r"for \(IndexType (\w+) = 0; \1 < n_landmarks; \+\+\1\) \{ \w+\[landmarks\[\1\]\] = false; embedding\.row\(landmarks\[\1\]\)\.noalias\(\) = landmarks_embedding\.first\.row\(\1\); \}", body)
-    m3 = re.search(r"for \(IndexType (\w+) = 0; \1 < ([^;]+); \+\+\1\) (?:\{ if \(landmarks_embedding\.second\(\1\) > \w+\) )?landmarks_embedding\.first\.col\(\1\)\.array\(\) /= landmarks_embedding\.second\(\1\);", body)
+    m2 = re.search(r"for \(" + TY + r" (\w+) = 0; \1 < n_landmarks; \+\+\1\) \{ \w+\[landmarks\[\1\]\] = false; embedding\.row\(landmarks\[\1\]\) = landmarks_embedding\.first\.row\(\1\); \}", body)
+    m3 = re.search(r"for \(" + TY + r" (\w+) = 0; \1 < ([^;]+); \+\+\1\) \{ (?:if \(landmarks_embedding\.second\(\1\) > \w+\) \{ )?landmarks_embedding\.first\.col\(\1\)\.array\(\) /= landmarks_embedding\.second\(\1\);", body)
     if not (m and m2 and m3):
         raise TranslateError("triangulate: row / column sites not found")
     out.defn("tri_row_hi", ["nl"], "nl", "`landmarks_embedding.first.row(i)`, `embedding.row(landmarks[i])`, i < n_landmarks")
@@ -1043,12 +1073,12 @@ def gen_sites(src, out):
     if not m:
         raise TranslateError("quadtree.hpp: QT_NO_DIMS not found")
     out.defn("qt_no_dims", [], "(%s : Int)" % m.group(1), "quadtree.hpp: `static const int QT_NO_DIMS = %s`" % m.group(1))
-    m = re.search(r"for \(int (\w+) = 0; \1 < N; \1\+\+\) \{ for \(int (\w+) = 0; \2 < QT_NO_DIMS; \2\+\+\) \{ mean_Y\[\2\] \+= inp_data\[([^\]]+)\];", q)
+    m = re.search(r"for \(" + TY + r" (\w+) = 0; \1 < N; \+\+\1\) \{ for \(" + TY + r" (\w+) = 0; \2 < QT_NO_DIMS; \+\+\2\) \{ mean_Y\[\2\] \+= inp_data\[([^\]]+)\];", q)
     if not m:
         raise TranslateError("quadtree.hpp: constructor loop over inp_data[n * QT_NO_DIMS + d] not found")
     out.defn("qt_read_idx", ["n", "dd"], E(m.group(3), {m.group(1): "n", m.group(2): "dd", "QT_NO_DIMS": "qt_no_dims"}, what="qt read"),
              "QuadTree(Y, N): `inp_data[%s]`, n < N, d < QT_NO_DIMS" % m.group(3))
-    m = re.search(r"(\w+) = (\w+) \* QT_NO_DIMS; for \(int (\w+) = row_P\[\2\]; .*? for \(int (\w+) = 0; \4 < QT_NO_DIMS; \4\+\+\) pos_f\[([^\]]+)\] \+=", q)
+    m = re.search(r"(\w+) = (\w+) \* QT_NO_DIMS; for \(" + TY + r" (\w+) = row_P\[\2\]; .*? for \(" + TY + r" (\w+) = 0; \4 < QT_NO_DIMS; \+\+\4\) \{ pos_f\[([^\]]+)\] \+=", q)
     if not m:
         raise TranslateError("quadtree.hpp: computeEdgeForces pos_f[ind1 + d] not found")
     out.defn("qt_posf_idx", ["n", "dd"], E(m.group(5), {m.group(1): "(n * qt_no_dims)", m.group(4): "dd"}, what="pos_f"),
@@ -1090,7 +1120,7 @@ def gen_sites(src, out):
     out.defn("tsne_sqdist_idx", ["n", "dd", "dims"], E(m.group(1), {"n": "n", "d": "dd", "D": "dims"}, what="sqdist idx"), "`X[%s]`, n < N, d < D" % m.group(1))
     body = src.function_body(ft, r"void computeGaussianPerplexity\(ScalarType\* X, int N, int D, int\*\* _row_P, int\*\* _col_P, ScalarType\*\* _val_P, ScalarType perplexity, int K\)", "computeGaussianPerplexity (sparse)")
     m = re.search(r"tree->search\(obj_X\[n\], ([^,]+), &indices, &distances\);", body)
-    m2 = re.search(r"for \(int (\w+) = 0; \1 < K; \1\+\+\) cur_P\[\1\] = exp\(-beta \* \(?distances\[([^\]]+)\](?: - distances\[1\]\))?\);", body)
+    m2 = re.search(r"for \(" + TY + r" (\w+) = 0; \1 < K; \+\+\1\) \{ cur_P\[\1\] = exp\(-beta \* \(?distances\[([^\]]+)\](?: - distances\[1\]\))?\);", body)
     m3 = re.search(r"ScalarType\* cur_P = \(ScalarType\*\)malloc\(\(([^)]+)\) \* sizeof\(ScalarType\)\);", body)
     m4 = re.search(r"col_P\[row_P\[n\] \+ (\w+)\] = indices\[([^\]]+)\]\.index\(\);", body)
     m5 = re.search(r"row_P\[n \+ 1\] = row_P\[n\] \+ ([^;]+);", body)
@@ -1112,7 +1142,7 @@ def gen_sites(src, out):
     out.raw("/-- `K = (int)(%s)` (truncation of a non-negative double; exact rational here) -/" % m.group(1))
     out.raw("def tsne_K (perp : Rat) : Int := ((%s : Rat) * perp).floor" % mm.group(1))
     m = re.search(r"int max_iter = (\d+),", body)
-    if not m or not re.search(r"for \(int iter = 0; iter < max_iter; iter\+\+\)", body):
+    if not m or not re.search(r"for \(" + TY + r" iter = 0; iter < max_iter; \+\+iter\)", body):
         raise TranslateError("tsne.hpp: main loop bound not found")
     out.defn("tsne_max_iter", [], "(%s : Int)" % m.group(1), "`int max_iter = %s`; main loop `iter < max_iter`" % m.group(1))
     s = src.norm(ft)
@@ -1120,7 +1150,7 @@ def gen_sites(src, out):
     if len(bis) < 1 or len(set(bis)) != 1:
         raise TranslateError("tsne.hpp: perplexity bisection bound `while (!found && iter < 200)` not found / not uniform: %r" % (bis,))
     out.defn("tsne_bisection_max", [], "(%s : Int)" % bis[0], "`while (!found && iter < %s)` (%d sites), `iter++` at the end of every round" % (bis[0], len(bis)))
-    if s.count("iter++;") < len(bis):
+    if s.count("++iter;") < len(bis):
         raise TranslateError("tsne.hpp: bisection loops without `iter++`")
 
     # ---- cover tree ------------------------------------------------------------------------------------------------
@@ -1140,7 +1170,7 @@ def gen_sites(src, out):
     out.defn("cover_node_scale", ["topScale", "maxScale"], E(m.group(1), {"top_scale": "topScale", "max_scale": "maxScale"}, what="cover scale"),
              "batch_insert: `n.scale = %s` — the index used in `cover_sets[chi->scale]`" % m.group(1))
     m2 = re.search(r"leaf_scale\((\d+)\)", s)
-    m3 = re.search(r"if \(leaf_scale <= n\.scale\) leaf_scale = ([^;]+);", s)
+    m3 = re.search(r"if \(leaf_scale <= n\.scale\) \{ leaf_scale = ([^;]+); \}", s)
     if m2 and m3:
         out.defn("cover_leaf_scale_init", [], "(%s : Int)" % m2.group(1), "constructor: `leaf_scale(%s)`" % m2.group(1))
         out.defn("cover_leaf_update", ["leafScale", "scale"], "(if leafScale ≤ scale then %s else leafScale)" % E(m3.group(1), {"n.scale": "scale"}, what="leaf update"),
@@ -1156,7 +1186,7 @@ def gen_sites(src, out):
     out.comment("§2.12 routines/manifold_sculpting.hpp")
     fm = "tapkee/routines/manifold_sculpting.hpp"
     body = src.function_body(fm, r"inline IndexType adjust_point_at_index\(", "adjust_point_at_index")
-    m = re.search(r"for \(IndexType (\w+) = 0; \1 < ([^;]+); \+\+\1\) \{ data\(\1, index\) \+= learning_rate;", body)
+    m = re.search(r"for \(" + TY + r" (\w+) = 0; \1 < ([^;]+); \+\+\1\) \{ data\(\1, index\) \+= learning_rate;", body)
     if not m:
         raise TranslateError("manifold_sculpting: data(i, index), i < target_dimension not found")
     out.defn("ms_row_hi", ["d"], E(m.group(2), {"target_dimension": "d"}, what="ms rows"), "`data(i, index)`, i < %s; `data` has D rows" % m.group(2))
@@ -1249,7 +1279,7 @@ def gen_errors(src, out):
     out.raw("]")
     # the foreign throw's guard as an expression
     body = src.function_body("tapkee/routines/manifold_sculpting.hpp", r"SparseMatrix neighbors_distances_matrix\(", "neighbors_distances_matrix")
-    m = re.search(r"const IndexType (\w+) = neighbors\.size\(\); if \(\(end - begin\) != \1\) throw std::runtime_error\(", body)
+    m = re.search(TY + r" (\w+) = neighbors\.size\(\); if \(\(?end - begin\)? != \1\) \{ throw std::runtime_error\(", body)
     if m:
         out.raw("/-- manifold_sculpting.hpp: `const IndexType n = neighbors.size(); if ((end - begin) != n) throw std::runtime_error(\"Wrong size\")` -/")
         out.raw("def ms_wrong_size_guard (N neighborsSize : Int) : Bool := decide (N ≠ neighborsSize)")
@@ -1259,8 +1289,8 @@ def gen_errors(src, out):
         out.raw("def ms_wrong_size_guard (N neighborsSize : Int) : Bool := false")
     # neighbour searches return one list per sample
     s = src.norm("tapkee/neighbors/neighbors.hpp")
-    if not (re.search(r"for \(RandomAccessIterator iter = begin; iter != end; \+\+iter\) \{ Distances distances;.*?neighbors\.push_back\(local_neighbors\); \}", s)
-            and re.search(r"for \(RandomAccessIterator i = begin; i != end; \+\+i\) \{ LocalNeighbors local_neighbors = tree\.search\(.*?neighbors\.push_back\(local_neighbors\); \}", s)
+    if not (re.search(r"for \(" + TY + r" (\w+) = begin; \1 != end; \+\+\1\) \{ Distances \w+;.*?neighbors\.push_back\(\w+\); \}", s)
+            and re.search(r"for \(" + TY + r" (\w+) = begin; \1 != end; \+\+\1\) \{ LocalNeighbors \w+ = tree\.search\(.*?neighbors\.push_back\(\w+\); \}", s)
             and re.search(r"neighbors\.resize\(end - begin\);", s)):
         raise TranslateError("neighbors.hpp: the three searches no longer produce one list per sample in a recognisable way")
     out.defn("neighbors_outer_size", ["N"], "N", "brute / VP-tree: one push_back per sample; cover tree: `neighbors.resize(end - begin)`")
